@@ -270,6 +270,27 @@ func modeC01(thorough bool) {
 			}
 			splitFrames = false
 		}
+		// a connection with a history: one frame cut inside its body, the next cut between the two octets of its
+		// length prefix, then one whose length prefix is cut and whose body is garbage - every piece its own segment
+		if lst == "tcp" || lst == "gnet" || lst == "tls" {
+			if c, err := streamConn(in, lst); err == nil {
+				frame := func(w []byte) []byte {
+					f := make([]byte, 2+len(w))
+					binary.BigEndian.PutUint16(f, uint16(len(w)))
+					copy(f[2:], w)
+					return f
+				}
+				a, b := frame(mkq(uniq()+".r0t60d0.z1.test.").wire()), frame(mkq(uniq()+".r0t60d0.z1.test.").wire())
+				g := frame(bytes.Repeat([]byte{0xff}, 40))
+				for _, piece := range [][]byte{a[:9], a[9:], b[:1], b[1:7], b[7:], g[:1], g[1:]} {
+					c.Write(piece)
+					time.Sleep(35 * time.Millisecond)
+				}
+				c.SetReadDeadline(time.Now().Add(500 * time.Millisecond))
+				io.Copy(io.Discard, c)
+				c.Close()
+			}
+		}
 		// length prefix lies (stream listeners): announced longer / shorter than what follows
 		if lst == "tcp" || lst == "gnet" || lst == "tls" {
 			for _, fl := range []int{len(valid) + 40, len(valid) - 5, 0, 65535} {
